@@ -134,7 +134,7 @@ def run_replay(path, snap, tmp):
 def discharge(ob, ctx):
     """Run an obligation; on a counterexample replay it, match known findings, re-ask with exclusions."""
     known = [k for k in ctx["known"] if k.get("property") == ctx["prop"] and k.get("status", "open") == "open"
-             and k.get("obligation") == ob.id]
+             and re.fullmatch(k.get("obligation", ".*"), ob.id)]
     excludes = []
     rounds = []
     out = {"id": ob.id, "kind": ob.kind, "desc": ob.desc, "bounds": ob.bounds, "param": ob.param,
